@@ -267,6 +267,24 @@ fn ast_macro(m: &syn::Macro) -> J {
     let name = m.path.segments.last().map(|x| x.ident.to_string()).unwrap_or_default();
     match name.as_str() {
         "panic" | "unreachable" => a("panic", vec![s(&name)]),
+        "matches" => {
+            struct M(syn::Expr, syn::Pat);
+            impl syn::parse::Parse for M {
+                fn parse(input: syn::parse::ParseStream) -> syn::Result<Self> {
+                    let e: syn::Expr = input.parse()?;
+                    input.parse::<syn::Token![,]>()?;
+                    let p = syn::Pat::parse_multi_with_leading_vert(input)?;
+                    if !input.is_empty() {
+                        return Err(input.error("matches! with a guard"));
+                    }
+                    Ok(M(e, p))
+                }
+            }
+            match m.parse_body::<M>() {
+                Ok(M(e, p)) => a("matches", vec![ast_expr(&e), ast_pat(&p)]),
+                Err(_) => a("unsupported", vec![jn(m)]),
+            }
+        }
         "vec" => match m.parse_body_with(syn::punctuated::Punctuated::<syn::Expr, syn::Token![,]>::parse_terminated) {
             Ok(es) => a("vec", vec![J::A(es.iter().map(ast_expr).collect())]),
             Err(_) => a("unsupported", vec![jn(m)]),
@@ -343,6 +361,7 @@ fn ast_expr(e: &syn::Expr) -> J {
         E::Continue(c) if c.label.is_none() => a("continue", vec![]),
         E::Break(b) if b.label.is_none() && b.expr.is_none() => a("break", vec![]),
         E::Tuple(t) if t.elems.is_empty() => a("unit", vec![]),
+        E::Tuple(t) => a("tuple", vec![J::A(t.elems.iter().map(ast_expr).collect())]),
         E::Field(f) => match &f.member {
             syn::Member::Named(n) => a("field", vec![ast_expr(&f.base), s(n)]),
             m => a("unsupported", vec![jn(m)]),
